@@ -7,7 +7,7 @@ import shapes as S
 PID = 'C01'
 STATS = G.STATS
 PARTIAL = [
-    "entry points: list = map of single, grid size / ordering / corners (curve, surface, volume) and the zeroth derivative of curves are Lean theorems about the model functions (curveGrid, surfaceGrid, volumeGrid, curveDers); the zeroth derivative of SURFACES through the A2.3-based model and the object layer's dispatch to these functions are tied by correspondence + exact oracle only",
+    "entry points: list = map of single, grid size / ordering / corners (curve, surface, volume) and the zeroth derivative of curves are Lean theorems about the model functions (curveGrid, surfaceGrid, volumeGrid, curveDers); the zeroth derivative of surfaces follows coordinatewise from C02 (k = l = 0); the object layer's dispatch to these functions is tied by correspondence + exact oracle only",
 ]
 ASSUMPTIONS = ["parameters at the domain end are evaluated on the last non-empty span (left limit), as the library does"]
 
